@@ -24,6 +24,12 @@
      hp_writes_arg     add_charge_array writes into its argument
      hp_df_adopts      add_charge_dataframe binds self._frame to its argument (C14-F7, repaired)
      hp_binds_param    any other method of Charge binds self._array / self._frame to one of its parameters
+   and, so that the model follows harmless variants, whether the three places that REPLACE the content of the
+   stored array bind `self._array` to a new array (true, as coded) or overwrite the stored array in place:
+     hp_reset_fresh    empty():               `self._array = np.zeros_like(self._array)`
+     hp_remove_fresh   remove_from_frame():   the same, when the last cluster goes
+     hp_rebuild_fresh  the `array` property:  `self._array = self.convert_df_to_array()`
+   (either way is fine for the property; it decides what a caller still sees through an old `.array` view).
    All VALUES are computed by the value-level machine (stepP of Model/Charge.v) on the value the stored
    reference points to; this file only decides which cell a value is written to.
    No proofs in this file. *)
@@ -40,11 +46,15 @@ Record heapparams := {
   hp_np_exposes : bool;
   hp_xr_copies : bool;
   hp_df_adopts : bool;
-  hp_binds_param : bool
+  hp_binds_param : bool;
+  hp_reset_fresh : bool;
+  hp_remove_fresh : bool;
+  hp_rebuild_fresh : bool
 }.
 Definition std_hparams : heapparams :=
   {| hp_add := AddInPlace; hp_writes_arg := false; hp_array_exposes := true; hp_np_exposes := true;
-     hp_xr_copies := true; hp_df_adopts := false; hp_binds_param := false |}.
+     hp_xr_copies := true; hp_df_adopts := false; hp_binds_param := false;
+     hp_reset_fresh := true; hp_remove_fresh := true; hp_rebuild_fresh := true |}.
 Definition add_mode_eqb (a b : add_mode) : bool :=
   match a, b with AddInPlace, AddInPlace | AddFresh, AddFresh | AddAdopt, AddAdopt => true | _, _ => false end.
 (* the container never keeps a reference to something the caller owns, never writes into it, and what it hands
@@ -107,6 +117,9 @@ Definition push_arg (hs : hstate) (a : matrix) : hstate :=
 Definition set_dfs (hs : hstate) (d : list (list cluster)) : hstate :=
   {| h_args := h_args hs; h_cells := h_cells hs; h_arr := h_arr hs; h_frame := h_frame hs; h_res := h_res hs;
      h_dfs := d |}.
+(* the content of the stored array is REPLACED by m: a new object is bound, or the stored object is overwritten *)
+Definition renew (fresh : bool) (hs : hstate) (m : matrix) : hstate :=
+  if fresh then set_arr hs m else store hs (h_arr hs) m.
 (* a read returns the stored array object itself ... *)
 Definition ret_stored (hs : hstate) (k : rkind) : hstate :=
   {| h_args := h_args hs; h_cells := h_cells hs; h_arr := h_arr hs; h_frame := h_frame hs;
@@ -155,7 +168,7 @@ Definition ret (hs : hstate) (k : rkind) (m : matrix) : option hstate * obs :=
 (* remove_from_frame: the frame becomes f'; a new zero array when that empties a non-empty frame *)
 Definition hremoved (g : geom) (hs : hstate) (f' : frame_t) : hstate :=
   match h_frame hs, f' with
-  | _ :: _, [] => set_frame (set_arr hs (zeros (g_rows g) (g_cols g))) []
+  | _ :: _, [] => set_frame (renew (hp_remove_fresh H) hs (zeros (g_rows g) (g_cols g))) []
   | _, _ => set_frame hs f'
   end.
 
@@ -194,7 +207,7 @@ Definition hstep (g : geom) (hs : hstate) (o : hop) : option hstate * obs :=
       match h_frame hs with
       | [] => ret hs k (cur hs)
       | f => match to_arrayP P g (fcl f) with
-             | Some m => ret (set_arr hs m) k m
+             | Some m => ret (renew (hp_rebuild_fresh H) hs m) k m
              | None => (None, OCorrupt)
              end
       end
@@ -202,7 +215,7 @@ Definition hstep (g : geom) (hs : hstate) (o : hop) : option hstate * obs :=
   | HRemoveAll => (Some (hremoved g hs []), OUnit)
   | HRemove [] => (Some (hremoved g hs []), OUnit)
   | HRemove ids => (Some (hremoved g hs (filter (fun p => negb (id_in ids (fst p))) (h_frame hs))), OUnit)
-  | HReset => (Some (set_frame (set_arr hs (zeros (g_rows g) (g_cols g))) []), OUnit)
+  | HReset => (Some (set_frame (renew (hp_reset_fresh H) hs (zeros (g_rows g) (g_cols g))) []), OUnit)
   end.
 
 Definition hexec1 (g : geom) (s : option hstate) (o : hop) : option hstate :=
